@@ -9,7 +9,7 @@ import ast
 
 from sa import fd
 from sa.model import AnalysisError, walk_no_nested, norm, mangle, call_name, is_self_call
-from sa.util import (ClassGraph, fact_atom, decorator_names, self_calls, attr_calls, eq_const_fact, raise_name,
+from sa.util import (module_resolver, ClassGraph, fact_atom, decorator_names, self_calls, attr_calls, eq_const_fact, raise_name,
                      const_value, bound_arg, attr_writes)
 from sa.consteval import TOP
 from .roles import ClientRoles
@@ -302,7 +302,7 @@ def run(ctx):
         return None
 
     for sv in (True, False):
-        it = fd.Interp(conn.node, R.cls.name, oracle)
+        it = fd.Interp(conn.node, R.cls.name, oracle, resolve=module_resolver(ctx.program, R.module))
         for p in it.run({tls_param: fd.Const(sv)}):
             npaths += 1
             ev = [x for x in p.events if x[0] in ("tls", "auth")]
@@ -499,7 +499,7 @@ def status_paths(ctx, R, f, extra_oracle=None):
             return outs
         return None
 
-    it = fd.Interp(f.node, R.cls.name, oracle)
+    it = fd.Interp(f.node, R.cls.name, oracle, resolve=module_resolver(ctx.program, R.module))
     res = []
     for p in it.run({}):
         codes = [x[1] for x in p.events if x[0] == "reply"]
